@@ -6,6 +6,7 @@ pub mod c02;
 pub mod c06;
 pub mod c07;
 pub mod c08;
+pub mod c09;
 pub mod c12;
 
 pub fn run(prop: &str, cfg: &Cfg, rep: &mut Report) -> bool {
@@ -15,6 +16,7 @@ pub fn run(prop: &str, cfg: &Cfg, rep: &mut Report) -> bool {
         "C06" => c06::run(cfg, rep),
         "C07" => c07::run(cfg, rep),
         "C08" => c08::run(cfg, rep),
+        "C09" => c09::run(cfg, rep),
         "C12" => c12::run(cfg, rep),
         _ => return false,
     }
